@@ -225,9 +225,9 @@ func addrOfVar(v ssa.Value) (types.Type, bool) {
 	return nil, false
 }
 
-func rulePCArg(c *Ctx, onlyFuncs func(fn *ssa.Function) bool) {
-	c.Rule("PC-ARG", "a pointer to a local or field handed to another codec's method points at a variable laid out as that method expects", 18)
-	c.Rule("PC-CAST", "a local reinterpretation (*B)(unsafe.Pointer(&a)) reads no more than a holds and sees pointers where a has pointers", 3)
+func rulePCArg(c *Ctx, onlyFuncs func(fn *ssa.Function) bool, minArg, minCast int) {
+	c.Rule("PC-ARG", "a pointer to a local or field handed to another codec's method points at a variable laid out as that method expects", minArg)
+	c.Rule("PC-CAST", "a local reinterpretation (*B)(unsafe.Pointer(&a)) reads no more than a holds and sees pointers where a has pointers", minCast)
 	P := c.P
 	e := getBT(P)
 	for _, fn := range P.ModuleFuncs() {
